@@ -179,6 +179,7 @@ func verifSpecCL(lowered string) primitive.ConsistencyLevel {
 //@   replay verifReplayRunRefusesBadConfig()
 //@   requires !$configError
 //@   ensures refused: $configError ==> result != 0
+//@   modifies *, $configError
 
 // ---------------------------------------------------------------------------------------------
 // Client side of the proxy: ghost event counters
